@@ -10,7 +10,7 @@
    the caller calls Release. *)
 From Coq Require Import List NArith Bool String.
 Import ListNotations.
-From OV Require Import Base.Bytes Base.Tree Model.Stream Proofs.Stream Proofs.StreamXml Proofs.StreamJson Proofs.StreamSplit.
+From OV Require Import Base.Bytes Base.Tree Model.Stream Proofs.Stream Proofs.StreamXml Proofs.StreamJson Proofs.StreamSplit Proofs.StreamInv.
 
 (* For every XML document, every target of the class and every Release pattern: the reader ends
    with EOF and the delivered snapshots are exactly the whole-document selection (same nodes,
@@ -54,6 +54,31 @@ Theorem split_filter_sound : forall tg, target_ok tg ->
   split_filter (render_target tg) =
   Some (render_steps (t_steps tg), negb (match t_filters tg with [] => true | _ => false end)).
 Proof. exact split_filter_sound_proof. Qed.
+
+(* The invariant of the XML reader, over ANY token sequence (well-formed or not) and ANY use of
+   Release / Read prologues ([xreach]): [sinv] - with no candidate open no node of the partial
+   tree is on the target path; with a candidate open (or just returned) that holds of the tree
+   without the candidate's subtree, the candidate's own chain is on the path, and cur is the
+   candidate or inside it.  (cur and its ancestors are the spine of the zipper by construction.)
+   Full statement of the plan also had "the zipper reassembles to a prefix of the document": that
+   clause is not part of this theorem - it is subsumed, for complete documents, by
+   xml_stream_eq_select (every delivery equals the complete subtree) - hence _partial. *)
+Theorem stream_invariant_partial :
+  forall (pm : list name -> bool) (pred : tree -> bool) (has_filter : bool),
+    (has_filter = false -> forall t, pred t = true) ->
+    pm [] = false ->
+    forall st, xreach pm pred has_filter st -> sinv pm st.
+Proof. exact stream_invariant_proof. Qed.
+
+(* Whatever the history, a node handed out satisfies the final predicates itself. *)
+Theorem delivered_satisfies_pred :
+  forall (pm : list name -> bool) (pred : tree -> bool) (has_filter : bool),
+    (has_filter = false -> forall t, pred t = true) ->
+    pm [] = false ->
+    forall st tk t n st',
+      xreach pm pred has_filter st -> s_stream st <> SClosed ->
+      xstep pm pred has_filter false st tk = RDeliver t n st' -> pred t = true.
+Proof. exact delivered_satisfies_pred_proof. Qed.
 
 Theorem release_then_prologue : forall st st1,
   release st = Some st1 -> read_prologue st1 = read_prologue st.
@@ -139,4 +164,22 @@ Proof.
          | |- _ = _ => reflexivity
          | |- _ => progress (unfold nt; cbn [snd fst pexp_ok nt_ok]; unfold qname_ok, name_ok, value_ok)
          end.
+Qed.
+
+(* xreach is inhabited beyond the initial state: after <r><n> with target //n a candidate is open *)
+Example xreach_nonvacuous :
+  let tg := mkTarget [(Desc, nt "n")] [] in
+  exists st, xreach (pm_of tg) (pred_target tg) false st /\ s_stream st = SOpen 3.
+Proof.
+  intro tg.
+  eexists. split.
+  - eapply reach_cont; [eapply reach_cont; [apply reach_init| | |]| | |].
+    + discriminate.
+    + shelve.
+    + instantiate (2 := XStart (bs "r") (FXml [] []) []). vm_compute. reflexivity.
+    + discriminate.
+    + shelve.
+    + instantiate (2 := XStart (bs "n") (FXml [] []) []). vm_compute. reflexivity.
+    Unshelve. all: discriminate.
+  - reflexivity.
 Qed.
